@@ -20,7 +20,9 @@ using bspline::support::Grid;
 using bspline::support::Support;
 
 // scalar used by the engines: the permissive exact rational, or (C19, -DVF_STRICT) the strict archetype
-#if defined(VF_LAZY)
+#if defined(VF_TRIV)
+using DefaultScalar = TQ;
+#elif defined(VF_LAZY)
 using DefaultScalar = LQ;
 #elif defined(VF_STRICT)
 using DefaultScalar = Q;
